@@ -86,6 +86,21 @@ _IDENTITY4 = np.eye(4, dtype=np.float64)
 _IDENTITY4.flags.writeable = False
 
 
+def _unshared(passed, array):
+    """
+    Copy `array` if it is an alias of a writeable buffer that was
+    `passed` by a caller: edits made through the buffer of the
+    caller would change the mesh without being noticed.
+    """
+    if (
+        isinstance(passed, np.ndarray)
+        and passed.flags.writeable
+        and np.may_share_memory(array, passed)
+    ):
+        return array.copy()
+    return array
+
+
 class Trimesh(Geometry3D):
     def __init__(
         self,
@@ -354,7 +369,7 @@ class Trimesh(Geometry3D):
             # if passed none store an empty array
             values = np.zeros(shape=(0, 3), dtype=int64)
         else:
-            values = np.asanyarray(values, dtype=int64)
+            values = _unshared(values, np.asanyarray(values, dtype=int64))
 
         # automatically triangulate quad faces
         if len(values.shape) == 2 and values.shape[1] != 3:
@@ -500,7 +515,9 @@ class Trimesh(Geometry3D):
         if values is None:
             # remove any stored data and store an empty array
             values = np.zeros(shape=(0, 3), dtype=float64)
-        self._data["vertices"] = np.asanyarray(values, order="C", dtype=float64)
+        self._data["vertices"] = _unshared(
+            values, np.asanyarray(values, order="C", dtype=float64)
+        )
 
     @cache_decorator
     def vertex_normals(self) -> NDArray[float64]:
